@@ -31,7 +31,9 @@ func TestDev(t *testing.T) {
 		if r.Status.String() != "ok" {
 			fmt.Println("=====", r.Status, c.Entry, c.Features, "\n"+c.Src)
 		}
-		if m.Msg != "" { msgs[c.Entry+" "+c.Ending+": "+clip(m.Msg, 100)]++ }
+		if m.Msg != "" {
+			msgs[c.Entry+" "+c.Ending+": "+clip(m.Msg, 100)]++
+		}
 	})
 	for k, v := range hist {
 		fmt.Println(v, k)
